@@ -35,11 +35,14 @@ C08InvOf(co, sh, rj) ==
     /\ \A x \in sh, i \in 1..Len(s) : x < s[i]                       \* nothing at or above an announced identifier is shown
     /\ sh \cap rj = {}
 C08Reject(sid) == LET s == SentIds IN s # <<>> /\ sid >= s[Len(s)]   \* only streams at or above the line are refused
-C08Quiesce == none \/ errd \/ arrived \subseteq (shown \cup rejected)  \* every request is either served or refused
+\* every request is either served or refused; nothing in a C08 history is a connection error
+C08Quiesce == ~errd /\ (none \/ arrived \subseteq (shown \cup rejected))
 
 LiveSet == { s \in shown : live[s] > 0 }
 C09None == LiveSet = {}                                              \* never "no more requests" while one is in progress
-C09Quiesce == (PeerGoaway /\ ~errd /\ LiveSet = {} /\ arrived \subseteq (shown \cup rejected)) => none
+\* (nothing the peer does in a C09 history is a connection error: every fault is confined to a request, the GOAWAY is legal - also when
+\*  it is repeated with the same identifier - so a driver that reports a connection error has not "drained")
+C09Quiesce == ~errd /\ ((PeerGoaway /\ LiveSet = {} /\ arrived \subseteq (shown \cup rejected)) => none)
 
 Fail(tag) == ok' = FALSE /\ why' = IF ok THEN tag ELSE why
 Keep == UNCHANGED <<ok, why>>
